@@ -61,6 +61,10 @@ CHECKS = {
    text="Cards with a spin-0 parent and three spinless finals: resonance spins J=0..4 x three slots x (m0 at 30/70/5 % of the allowed range) x Gamma0 x three final-state mass sets for single chains, all 25 J pairs for every pair of slots, J triples for all three chains, complex couplings from a 5-element menu; Dalitz lattices in two orientations with every third event in a frame where the parent moves; oracle: |sum_k c_k (-1)^J p^J q^J B_J B_J BW_k P_J(cos theta_k)|^2 evaluated in numpy from the four-momenta.",
    note="Nominal masses inside the kinematically allowed range (outside it the statement fixes no continuation); lattice events; 1e-9 relative.",
    technique="bounded-exhaustive enumeration of decay cards x event lattices against an independent closed-form reference"),
+ "C01": dict(level="exploration", ref="4-C01",
+   text="Product of decay cards (6 spin families with integer/half-integer spins, parity violation, restricted final-state helicities, all chain subsets, alternative resonance spin-parities, a second resonance in a slot; 3 identical-particle families with default and centre-of-mass alignment) x Dalitz-lattice events in two generic orientations x a finite set of Lorentz transformations (cube and Euler rotations, boosts up to beta=0.99 in 8 directions, rotation o boost in both orders, spatial inversion, exchange of identical particles); all transformed copies in one evaluation per card; density(g.x) = density(x), finite and non-negative. Edge alphabet (momentum exactly along z, collinear boundary): finite and non-negative only.",
+   note="Lattice events only; a restricted helicity list of the parent is a polarised parent and is excluded; align_ref=center_mass is used only with center_mass=True. Known finding: identical particles with spin and default alignment.",
+   technique="bounded-exhaustive product enumeration of decay cards x event lattices x a finite set of group elements"),
 }
 
 NA_REASON = "check not built yet in this round (planned in DESIGN.md section 4)"
